@@ -75,6 +75,7 @@ func (a *Authenticator) verifEv(ev string, neg *SecurityNegotiation, kv ...any) 
 	}
 	if a.stream != nil {
 		rec["streamEnc"] = a.stream.IsEncrypted()
+		rec["st"], rec["sq"] = a.stream.VerifPos()
 	}
 	if neg != nil {
 		rec["client"] = neg.IsClient
